@@ -19,7 +19,7 @@ def generate(tier, seed):
     for name in ("1HPX.pdb", "3SGB.pdb", "4DFR.pdb"):
         for sub in (0, 1, 2):
             cases.append({"kind": "file", "file": name, "subset": sub, "seed": "%d:%s:%d" % (seed, name, sub), "cost": 80})
-    n = 500 if tier == "quick" else 4000
+    n = 500 if tier == "quick" else 20000
     for k in range(n):
         cases.append({"kind": "chimera", "seed": "%d:chi:%d" % (seed, k), "cost": 12})
     return cases
